@@ -399,6 +399,18 @@ func isolationMatrix() []isoCell {
 	add("multi-file/one-way", &jBundle{Files: []*jFile{
 		{Path: "iso/v1/a.j5s", Pkg: "iso.v1", Elems: []*jElem{objDecl("Alpha", fld("beta", tRef(kObject, "Beta", "iso.v1.Beta")))}},
 		{Path: "iso/v1/b.j5s", Pkg: "iso.v1", Elems: []*jElem{objDecl("Beta", fld("name", tScalar(kString)))}}}})
+	// file names with dots: each source has its own service and topic file
+	{
+		mk := func(path, obj, svc string) *jFile {
+			return &jFile{Path: path, Pkg: "iso.v1", Elems: []*jElem{
+				objDecl(obj, fld("name", tScalar(kString))),
+				{Service: &jService{Name: svc, BasePath: "/iso/v1/" + strings.ToLower(svc), Methods: []*jMethod{{Name: "Get" + obj, HTTPMethod: "GET", Path: "/one", HasRes: true, Res: []*jF{fld("item", tRef(kObject, obj, "iso.v1."+obj))}}}}},
+				{Topic: &jTopic{Name: svc, Type: "publish", Messages: []*jTopicMsg{{Name: "Post" + obj, Fields: []*jF{fld("name", tScalar(kString))}}}}},
+			}}
+		}
+		add("multi-file/dotted-names-two-services", &jBundle{Files: []*jFile{mk("iso/v1/orders.read.j5s", "OrderView", "OrderRead"), mk("iso/v1/orders.write.j5s", "OrderDraft", "OrderWrite")}})
+		add("multi-file/dotted-name-and-plain", &jBundle{Files: []*jFile{mk("iso/v1/orders.j5s", "OrderView", "OrderRead"), mk("iso/v1/orders.archive.j5s", "OrderDraft", "OrderWrite")}})
+	}
 	// files of one package using each other's types would need proto files importing each other
 	defer func() {
 		for i := range cells {
